@@ -127,6 +127,8 @@ struct Env {
     /// per extracted file
     files: Vec<(String, Vec<u8>)>,
     fault_seen: bool,
+    /// names the file callback declines (non-zero return: "do not extract this file")
+    decline: Vec<String>,
 }
 
 struct FileCtx {
@@ -220,6 +222,9 @@ extern "C" fn file_cb(ctx: *mut c_void, name: *const u8, len: usize, fw: *mut Fi
     // a non-zero return of the file callback means "do not extract this file", not a failure: no fault here
     let env = unsafe { &mut *(ctx as *mut Env) };
     let name = String::from_utf8_lossy(unsafe { std::slice::from_raw_parts(name, len) }).to_string();
+    if env.decline.contains(&name) {
+        return 1;
+    }
     env.files.push((name, Vec::new()));
     let fc = Box::into_raw(Box::new(FileCtx { env: env as *mut Env, idx: env.files.len() - 1 }));
     unsafe {
@@ -255,7 +260,7 @@ pub enum Case {
     /// write a program through the C entry points
     Write { p: Program, level: u32, sched: Sched, explore_faults: bool },
     /// extract an archive (written by the Rust writer) through the C entry point
-    Extract { p: Program, layers: L4, sched: Sched, explore_faults: bool },
+    Extract { p: Program, layers: L4, sched: Sched, explore_faults: bool, decline: u8 },
     /// NULL / stale handle placements
     Null(usize),
 }
@@ -264,7 +269,7 @@ impl Case {
     fn json(&self) -> Value {
         match self {
             Case::Write { p, level, sched, explore_faults } => json!({"write": {"program": p.json(), "short": p.short(), "level": level, "schedule": sched.json(), "explore_faults": explore_faults}}),
-            Case::Extract { p, layers, sched, explore_faults } => json!({"extract": {"program": p.json(), "short": p.short(), "layers": layers.tag(), "schedule": sched.json(), "explore_faults": explore_faults}}),
+            Case::Extract { p, layers, sched, explore_faults, decline } => json!({"extract": {"program": p.json(), "short": p.short(), "layers": layers.tag(), "schedule": sched.json(), "explore_faults": explore_faults, "decline": decline}}),
             Case::Null(k) => json!({"null_placement": k}),
         }
     }
@@ -273,7 +278,7 @@ impl Case {
             return Some(Case::Write { p: Program::from_json(&w["program"]), level: w["level"].as_u64().unwrap_or(5) as u32, sched: Sched::from_json(&w["schedule"]), explore_faults: false });
         }
         if let Some(w) = v.get("extract") {
-            return Some(Case::Extract { p: Program::from_json(&w["program"]), layers: L4::from_tag(w["layers"].as_str().unwrap_or("none")), sched: Sched::from_json(&w["schedule"]), explore_faults: false });
+            return Some(Case::Extract { p: Program::from_json(&w["program"]), layers: L4::from_tag(w["layers"].as_str().unwrap_or("none")), sched: Sched::from_json(&w["schedule"]), explore_faults: false, decline: w["decline"].as_u64().unwrap_or(0) as u8 });
         }
         v.get("null_placement").and_then(|k| k.as_u64()).map(|k| Case::Null(k as usize))
     }
@@ -288,7 +293,7 @@ struct WriteResult {
 }
 
 fn c_write(lib: &Lib, p: &Program, level: u32, sched: &Sched) -> WriteResult {
-    let mut env = Box::new(Env { sched: sched.clone(), calls: 0, out: Vec::new(), src: Vec::new(), pos: 0, files: Vec::new(), fault_seen: false });
+    let mut env = Box::new(Env { sched: sched.clone(), calls: 0, out: Vec::new(), src: Vec::new(), pos: 0, files: Vec::new(), fault_seen: false, decline: Vec::new() });
     let ctx = &mut *env as *mut Env as *mut c_void;
     let mut st = Vec::new();
     let mut cfg: *mut c_void = std::ptr::null_mut();
@@ -354,8 +359,8 @@ struct ExtractResult {
     fault_seen: bool,
 }
 
-fn c_extract(lib: &Lib, archive: &[u8], encrypted: bool, sched: &Sched) -> ExtractResult {
-    let mut env = Box::new(Env { sched: sched.clone(), calls: 0, out: Vec::new(), src: archive.to_vec(), pos: 0, files: Vec::new(), fault_seen: false });
+fn c_extract(lib: &Lib, archive: &[u8], encrypted: bool, sched: &Sched, decline: &[String]) -> ExtractResult {
+    let mut env = Box::new(Env { sched: sched.clone(), calls: 0, out: Vec::new(), src: archive.to_vec(), pos: 0, files: Vec::new(), fault_seen: false, decline: decline.to_vec() });
     let ctx = &mut *env as *mut Env as *mut c_void;
     let mut cfg: *mut c_void = std::ptr::null_mut();
     (lib.reader_config_new)(&mut cfg);
@@ -369,7 +374,7 @@ fn c_extract(lib: &Lib, archive: &[u8], encrypted: bool, sched: &Sched) -> Extra
 
 /// NULL pointers in every parameter position, handles cleared by the interface, double close.
 fn null_placement(lib: &Lib, k: usize) -> Option<(String, u64)> {
-    let mut env = Box::new(Env { sched: Sched::default(), calls: 0, out: Vec::new(), src: Vec::new(), pos: 0, files: Vec::new(), fault_seen: false });
+    let mut env = Box::new(Env { sched: Sched::default(), calls: 0, out: Vec::new(), src: Vec::new(), pos: 0, files: Vec::new(), fault_seen: false, decline: Vec::new() });
     let ctx = &mut *env as *mut Env as *mut c_void;
     let null: *mut c_void = std::ptr::null_mut();
     let pk = pem_of_key(0, false);
@@ -605,22 +610,25 @@ fn run_case(lib: &Lib, c: &Case, rep: &mut Report) {
                 }
             }
         }
-        Case::Extract { p, layers, sched, explore_faults } => {
+        Case::Extract { p, layers, sched, explore_faults, decline } => {
+            // decline 1 / 2: the file callback declines the names of odd / even index (subset extraction)
+            let declined: Vec<String> = p.names.iter().enumerate().filter(|(i, _)| *decline != 0 && i % 2 == (*decline as usize) % 2).map(|(_, n)| n.clone()).collect();
             let cfg = Cfg::new(*layers);
             let Ok(Ok((archive, _))) = guard(|| prog::build(p, &cfg)) else {
                 rep.count("archive_not_built(see C01)", 1);
                 return;
             };
-            let model = p.model();
+            let mut model = p.model();
+            model.files.retain(|n, _| !declined.contains(n));
             let mut one = |s: &Sched, rep: &mut Report| -> usize {
                 rep.evaluations += 1;
-                let h = fnv(format!("x{p:?}{layers:?}{s:?}").as_bytes());
+                let h = fnv(format!("x{p:?}{layers:?}{s:?}{decline}").as_bytes());
                 rep.state(h);
                 if s != &Sched::default() {
                     rep.nontrivial(h);
                 }
-                let rp = Case::Extract { p: p.clone(), layers: *layers, sched: s.clone(), explore_faults: false }.json();
-                let r = match guard(|| c_extract(lib, &archive, layers.encrypted(), s)) {
+                let rp = Case::Extract { p: p.clone(), layers: *layers, sched: s.clone(), explore_faults: false, decline: *decline }.json();
+                let r = match guard(|| c_extract(lib, &archive, layers.encrypted(), s, &declined)) {
                     Ok(r) => r,
                     Err(pn) => {
                         rep.violate(Violation { sig: json!({"kind": "panic_across_ffi", "panic": pn.sig()}), detail: format!("{pn:?}"), replay: rp, weight: 0 });
@@ -636,7 +644,7 @@ fn run_case(lib: &Lib, c: &Case, rep: &mut Report) {
                         rep.violate(Violation { sig: json!({"kind": "callback_failure_not_reported", "side": "extract"}), detail: format!("{} ({}): a callback reported failure (schedule {}) but mla_roarchive_extract returned success", p.short(), layers.tag(), s.json()), replay: rp, weight: s.at.len() as u64 });
                     }
                 } else {
-                    rep.class("extract/clean");
+                    rep.class(if *decline == 0 { "extract/clean" } else { "extract-subset/clean" });
                     let got: BTreeMap<String, Vec<u8>> = r.files.iter().cloned().collect();
                     if r.status != 0 || got != model.files {
                         rep.violate(Violation {
@@ -686,7 +694,13 @@ pub fn cases(thorough: bool) -> Vec<Case> {
         for l in L4::ALL {
             for (si, s) in [Sched::default(), Sched { uniform: Some(1), at: BTreeMap::new() }, Sched { uniform: Some(5), at: BTreeMap::new() }].into_iter().enumerate() {
                 let explore = si == 0 && k % (if thorough { 2 } else { 9 }) == 0;
-                v.push(Case::Extract { p: p.clone(), layers: l, sched: s, explore_faults: explore });
+                if si != 1 && p.names.len() >= 2 {
+                    // subset extraction: the file callback declines every other file
+                    for d in [1u8, 2] {
+                        v.push(Case::Extract { p: p.clone(), layers: l, sched: s.clone(), explore_faults: false, decline: d });
+                    }
+                }
+                v.push(Case::Extract { p: p.clone(), layers: l, sched: s, explore_faults: explore, decline: 0 });
             }
         }
     }
@@ -742,7 +756,7 @@ pub fn run(started: Instant) -> i32 {
         rep,
         Meta {
             level: "model_checking",
-            rule: "libmla.so built from the working tree is loaded with dlopen and driven through its C entry points in worker processes. (1) every program of a bounded tree (and rich bases, flush placements) expressed as mla_archive_file_new/append/flush/close + mla_archive_close, with write callbacks that accept everything / 1 byte / 7 bytes per call; the collected bytes are read by the Rust ArchiveReader and compared with the reference model. (2) archives written by the Rust writer (4 layer combos) extracted with mla_roarchive_extract through read callbacks returning everything / 1 / 5 bytes and per-file write callbacks accepting partial buffers: exact bytes per file. (3) for a subset of (1)/(2), at EVERY callback invocation index: accept 1 byte, accept half, or report failure - a reported failure must surface as a non-success status no later than the close; 37 NULL-pointer / cleared-handle / double-close / handle-after-failed-call placements must return a non-success status. No crash, signal or panic across the FFI in any case. states = distinct (case, schedule)".to_string(),
+            rule: "libmla.so built from the working tree is loaded with dlopen and driven through its C entry points in worker processes. (1) every program of a bounded tree (and rich bases, flush placements) expressed as mla_archive_file_new/append/flush/close + mla_archive_close, with write callbacks that accept everything / 1 byte / 7 bytes per call; the collected bytes are read by the Rust ArchiveReader and compared with the reference model. (2) archives written by the Rust writer (4 layer combos) extracted with mla_roarchive_extract through read callbacks returning everything / 1 / 5 bytes and per-file write callbacks accepting partial buffers: exact bytes per file; also with a file callback that declines every other file (subset extraction: nothing for the declined ones). (3) for a subset of (1)/(2), at EVERY callback invocation index: accept 1 byte, accept half, or report failure - a reported failure must surface as a non-success status no later than the close; 37 NULL-pointer / cleared-handle / double-close / handle-after-failed-call placements must return a non-success status. No crash, signal or panic across the FFI in any case. states = distinct (case, schedule)".to_string(),
             exhaustive: true,
             bounds: json!({"cases": cs.len(), "null_placements": N_NULL}),
             assumptions: vec!["the C API only offers the default layers (compress+encrypt) for writing".to_string(), "scaled constants".to_string()],
